@@ -380,3 +380,36 @@ Example C18_ex_limit :
   py_int_lim 3 (s2l "0000") = None /\
   try_make_number_lim 3 (CT "1234") = ODec false 1234 0 /\ try_make_number (CT "1234") = OInt 1234.
 Proof. vm_compute. repeat split; reflexivity. Qed.
+
+(* ---- stage 6: free-text cells ------------------------------------------------------------------ *)
+(* A string with a mark (a printable ASCII character outside the alphabet of numeric literals) is rejected by
+   the model's int() and float() whatever other bytes it holds -- so the second conjunct of nonnumeric decides
+   membership without reference to the rest of the text for such strings.  (The model side of the argument
+   that CPython rejects them: proved here for the model, trusted for CPython.) *)
+Theorem C18_free_text_cell : forall s, nonnumeric s = true -> str_cell_ok s = true ->
+  value_ok (VStr s) = true /\ simple_value_ok (VStr s) = true /\ try_make_number (CT s) = OStr s.
+Proof.
+  intros s H1 H2. cbn [value_ok simple_value_ok]. rewrite H1, H2. repeat split. apply C18_nonnumeric, H1.
+Qed.
+Print Assumptions C18_free_text_cell.
+
+(* header cells are cells: what the delimiter detection needs (no line break) implies what the transport needs *)
+Theorem C18_header_is_cell : forall t, ctext_ok t = true -> ctext_cell_ok t = true.
+Proof. exact ctext_csv_cell. Qed.
+Print Assumptions C18_header_is_cell.
+
+(* non-vacuity: a label with a line feed, one with CR LF, the line boundaries VT FF FS GS RS next to a mark,
+   UTF-8 text (NEL, LS, an accented letter) next to a mark are cells of the reading; FS alone, NEL + digits,
+   a NUL are not *)
+Example C18_ex_free_text :
+  map (fun l => value_ok (VStr (l2s (map chr l))))
+      [[100; 114; 105; 102; 116; 115; 10; 97; 102; 116; 101; 114]; [120; 13; 10; 121]; [98; 11; 12; 28; 29; 30];
+       [194; 133; 122]; [226; 128; 168; 35]; [99; 97; 102; 195; 169; 33];
+       [28]; [194; 133; 49; 50]; [120; 0]]
+  = [true; true; true; true; true; true; false; false; false].
+Proof. vm_compute. reflexivity. Qed.
+Example C18_ex_simple_lf :
+  read_simple ref_csv (write_simple ref_csv ref_float Comma "note"
+     [(7, VStr (l2s (map chr [100; 10; 97]))); (0, VStr "good")])
+  = Some ("note", [(0, OStr "good"); (7, OStr (l2s (map chr [100; 10; 97])))]).
+Proof. vm_compute. reflexivity. Qed.
